@@ -98,6 +98,10 @@ class RulesMixin:
             return SymReal(ctx.fresh(name, z3.RealSort()))
         if ty == "bytes":
             return ops.fresh_payload(ctx, name)
+        if ty == "text":
+            from .models_ws import fresh_text
+
+            return fresh_text(ctx, name)
         if ty in ("str", "bstr"):
             nm = ctx.fresh_name(name)
             e = z3.String(nm)
@@ -432,6 +436,7 @@ class RulesMixin:
                 ctx.assume(self.as_z3_bool(self.spec_eval(cl, env, old_env, cmod)))
             if ctx.check() == z3.unsat:
                 raise PathEnd("exceptional outcome infeasible")
+            self.run_ghost(fc.ghost_on_raise.get(exc_name, []), env, fr)
             raise PyRaise(SObj(self.exc_class(exc_name), {"args": ()}), f"{fc.qualname} (contract) called at {fr.where()}")
         result = None
         if fc.returns:
@@ -448,8 +453,10 @@ class RulesMixin:
             cc = self.class_contract(slf)
             if cc is not None:
                 self.assume_inv(slf, cc)
-        for cl in fc.ensures:
+        for cl in fc.ensures + fc.assumed_ensures:
             self.assume_clause(cl, env2, old_env, cmod, f"ensures {cl.name}")
+        for cl in fc.assumed_ensures:
+            self.ctx.assumptions_used.add(f"assumed (not proved) postcondition of {fc.qualname}: {cl.text}")
         if ctx.check() == z3.unsat:
             raise PathEnd("callee postcondition unsatisfiable on this path")
         self.run_ghost(fc.ghost_post, env2, fr)
@@ -842,6 +849,34 @@ class RulesMixin:
                                     return True
         return False
 
+    def body_attr_effect(self, body):
+        """if the loop body only *assigns attributes of self* (no await, no call through self, no
+        other heap store) return the set of attribute names, else None (= havoc everything)"""
+        attrs = set()
+        for st in body:
+            for n in ast.walk(st):
+                if isinstance(n, (ast.Await, ast.AsyncWith, ast.AsyncFor, ast.With)):
+                    return None
+                if isinstance(n, ast.Call):
+                    f = n.func
+                    root = f
+                    while isinstance(root, (ast.Attribute, ast.Subscript, ast.Call)):
+                        root = root.value if not isinstance(root, ast.Call) else root.func
+                    if isinstance(root, ast.Name) and root.id == "self":
+                        return None
+                if isinstance(n, (ast.Attribute, ast.Subscript)) and isinstance(n.ctx, (ast.Store, ast.Del)):
+                    if isinstance(n, ast.Attribute) and isinstance(n.value, ast.Name) and n.value.id == "self":
+                        attrs.add(n.attr)
+                    elif isinstance(n, ast.Subscript):
+                        b = n.value
+                        while isinstance(b, ast.Subscript):
+                            b = b.value
+                        if isinstance(b, ast.Attribute):
+                            return None
+                    else:
+                        return None
+        return attrs
+
     def run_body(self, body, fr) -> str:
         try:
             self.exec_block(body, fr)
@@ -876,8 +911,9 @@ class RulesMixin:
         elif isinstance(it, SymSeq):
             conc, tail = [], it
         elif isinstance(it, SymAny):
-            tag, val = ops.any_split(ctx, it, "iter")
-            if tag in ("none", "bool", "int"):
+            tag, val = ops.any_split(ctx, it, "iter", interesting=())
+            # iterable or not: one alternative each (elements are arbitrary values either way)
+            if ctx.choose(2, f"iterable:{it.name}", ["iterable", "TypeError"]) == 1:
                 raise mk_exc(TypeError, "object is not iterable", where=fr.where())
             conc, tail = [], AnyIter(it)
         elif isinstance(it, SymOpt):
@@ -929,6 +965,11 @@ class RulesMixin:
         mod = assigned_names(s.body) | {n for n in mutated_names(s.body) if n in fr.locals}
         target_names = assigned_names([s.target]) if is_for else set()
         heap = self.body_heap_effect(s.body)
+        only_attrs = self.body_attr_effect(s.body) if heap else None
+        if only_attrs is not None and heap and isinstance(fr.locals.get("self"), SObj):
+            heap = False
+        else:
+            only_attrs = None
         n_expr = self.tail_len(tail) if tail is not None else None
 
         def env_for(i):
@@ -973,6 +1014,9 @@ class RulesMixin:
                 fr.locals[name] = MaybeUnbound(b, LazyUnknown(f"{label}: local '{name}' is read after being assigned in an earlier iteration; give its type in loops[{ordinal}]['locals']"))
         for name in target_names:
             fr.locals.pop(name, None)
+        if only_attrs:
+            for a in sorted(only_attrs):
+                self.havoc_field(fr.locals["self"], a)
         if heap:
             self.havoc_all(use_rely=False)
             tr = self.traces
@@ -1119,8 +1163,7 @@ class RulesMixin:
             raise Unsupported("dict/set comprehension over symbolic iterable")
         ctx = self.ctx
         if isinstance(it, SymAny):
-            tag, val = ops.any_split(ctx, it, "iter")
-            if tag in ("none", "bool", "int"):
+            if ctx.choose(2, f"iterable:{it.name}", ["iterable", "TypeError"]) == 1:
                 raise mk_exc(TypeError, "object is not iterable", where=fr.where())
             src_len = ctx.fresh("n_iter", z3.IntSort())
             ctx.assume(src_len >= 0)
@@ -1200,7 +1243,13 @@ class RulesMixin:
             seq = ops.to_seq(ctx, it)
             n = z3.Length(seq.e)
             elem = seq
-        r = z3.Bool(ctx.fresh_name("any" if is_any else "all"))
+        if elem is not None and is_any:
+            # any(<pred>(x) for x in seq): a function of the sequence (one predicate per call site
+            # family; contracts refer to it through tokens_have_upgrade)
+            anyf = z3.Function("any_over", elem.e.sort(), z3.BoolSort())
+            r = anyf(elem.e)
+        else:
+            r = z3.Bool(ctx.fresh_name("any" if is_any else "all"))
         ctx.assume(z3.Implies(n == 0, r == z3.BoolVal(not is_any)))
         ctx.assumptions_used.add("any()/all() over a symbolic collection: result uninterpreted except for the empty case")
         if elem is not None and ctx.check(n > 0) != z3.unsat:
@@ -1213,7 +1262,7 @@ class RulesMixin:
                 for c in g.ifs:
                     self.ev(c, f2)
                 self.ev(e.elt, f2)
-        return SymBool(r)
+        return SymBool(r) if not z3.is_true(r) and not z3.is_false(r) else z3.is_true(r)
 
     # ============================================================== models lookup
     def model_for(self, cls):
